@@ -78,8 +78,11 @@ func main() {
 func cmdDump(args []string) {
 	fs := flag.NewFlagSet("dump", flag.ExitOnError)
 	root := fs.String("root", "/repo", "module root")
+	verif := fs.String("verif", "/verif", "verif dir")
 	fs.Parse(args)
-	e, err := loadEngine(*root, nil)
+	preludes, _ := filepath.Glob(filepath.Join(*verif, "prelude", "*.spec"))
+	sort.Strings(preludes)
+	e, err := loadEngine(*root, preludes)
 	if err != nil {
 		fatal("%v", err)
 	}
